@@ -32,7 +32,7 @@ pub fn def() -> PropDef {
 #[derive(Clone, Debug, Serialize, Deserialize)]
 pub enum Source {
     Hits(HitEvent),
-    /// (start wire, length) blocks; every wire of a block carries 1-2 pulses
+    /// (start wire, length) blocks; every wire of a block carries 1-2 pulses; pad clusters have neighbour fractions 0.27-0.63, one in twelve far below 1e-3
     Blocks { blocks: Vec<(u16, u16)>, seed: u64, bins: u16 },
     Forward(Truth),
 }
@@ -80,7 +80,10 @@ impl SymCase {
                                 let col = geometric_column(wire);
                                 let row = 1 + ((r >> 12) % 574) as usize;
                                 let pamp = 150.0 + ((r >> 24) % 9000) as f64 / 10.0;
-                                for (dr, f) in [(-1i64, 0.31 + (r % 97) as f64 / 300.0), (0, 1.0), (1, 0.27 + (r % 89) as f64 / 300.0)] {
+                                // one cluster in twelve is very narrow: both neighbours far below a thousandth of the peak, and unequal
+                                let narrow = (r >> 52) % 12 == 0;
+                                let (lo, hi) = if narrow { (2e-5 * (1 + r % 7) as f64, 3e-4 / (1 + r % 5) as f64) } else { (0.31 + (r % 97) as f64 / 300.0, 0.27 + (r % 89) as f64 / 300.0) };
+                                for (dr, f) in [(-1i64, lo), (0, 1.0), (1, hi)] {
                                     let ps = p.entry((col, (row as i64 + dr) as usize)).or_insert_with(|| vec![0.0; event_bins]);
                                     for (j, v) in pr.iter().enumerate() {
                                         if bin + j >= event_bins {
